@@ -202,6 +202,11 @@ func (rc *realController) CalculateBatchContext(release *v1beta1.BatchRelease) (
 		}
 	}
 	desired, _ := intstr.GetScaledValueFromIntOrPercent(&desiredSurge, int(rc.Replicas), true)
+	// an integer step may ask for more pods than the workload has: the batch can never have more updated pods than
+	// replicas, so waiting for more would never end (the other styles clamp the same way)
+	if desired > int(rc.Replicas) {
+		desired = int(rc.Replicas)
+	}
 
 	batchContext := &batchcontext.BatchContext{
 		Pods:           rc.pods,
